@@ -353,6 +353,16 @@ func Cases(def int) int {
 	return def
 }
 
+// Shard returns (shard index, number of shards) of this process
+func Shard() (int, int) {
+	sh, _ := strconv.Atoi(os.Getenv("VERIF_SHARD"))
+	n, _ := strconv.Atoi(os.Getenv("VERIF_NSHARDS"))
+	if n <= 0 {
+		n = 1
+	}
+	return sh % n, n
+}
+
 // Tier returns quick or thorough
 func Tier() string {
 	if os.Getenv("VERIF_TIER") == "thorough" {
